@@ -970,17 +970,20 @@ func mkR(name string, sc rscen, qb, tb int, w float64) d1x.Scenario {
 func scenarios() []d1x.Scenario {
 	E, V := true, false
 	_ = V
-	// Bounds and weights follow the measured sizes (unsharded): r3-value has 1.9k / 51k / >450k
-	// executions at bound 1 / 2 / 3, the two-reader scenarios 5-13k at bound 2.
+	// Bounds follow the measured sizes (unsharded executions at bound 1 / 2 / 3): r3-value 1.9k /
+	// 51k / more than 1.5M (not completable in the thorough budget), r3-err-value 2.3k / 54k, the
+	// two-reader scenarios 0.5-0.7k / 5-13k / 30k to more than 150k (r2-set). Under the load of the
+	// shared machine (about 1700 executions/s over 16 processes, uneven shards) roughly 400k
+	// executions fit into the thorough budget.
 	return []d1x.Scenario{
-		mkR("r3-value", rscen{rkeys: []int{0, 0, 0}}, 1, 3, 8),
-		mkR("r3-err-value", rscen{rkeys: []int{0, 0, 0}, turns: [][]bool{{E}}}, 1, 2, 1),
-		mkR("r3-err-err-value", rscen{rkeys: []int{0, 0, 0}, turns: [][]bool{{E, E}}}, 1, 2, 1),
-		mkR("r3-all-error", rscen{rkeys: []int{0, 0, 0}, turns: [][]bool{{E, E, E}}}, 1, 2, 1),
+		mkR("r3-value", rscen{rkeys: []int{0, 0, 0}}, 1, 2, 2),
+		mkR("r3-err-value", rscen{rkeys: []int{0, 0, 0}, turns: [][]bool{{E}}}, 1, 2, 2),
+		mkR("r3-err-err-value", rscen{rkeys: []int{0, 0, 0}, turns: [][]bool{{E, E}}}, 1, 2, 2),
+		mkR("r3-all-error", rscen{rkeys: []int{0, 0, 0}, turns: [][]bool{{E, E, E}}}, 1, 2, 2),
 		mkR("r2-evictfile", rscen{rkeys: []int{0, 0}, mut: "evict"}, 2, 3, 2),
-		mkR("r2-delete", rscen{rkeys: []int{0, 0}, mut: "delete"}, 2, 3, 2),
+		mkR("r2-delete", rscen{rkeys: []int{0, 0}, mut: "delete"}, 1, 2, 1),
 		mkR("r2-err-evictfile", rscen{rkeys: []int{0, 0}, turns: [][]bool{{E}}, mut: "evict"}, 2, 3, 2),
-		mkR("r2-set", rscen{rkeys: []int{0, 0}, mut: "set"}, 2, 3, 2),
+		mkR("r2-set", rscen{rkeys: []int{0, 0}, mut: "set"}, 1, 2, 1),
 		mkR("two-keys", rscen{rkeys: []int{0, 1, 0}, turns: [][]bool{{E}, nil}}, 1, 2, 2),
 	}
 }
@@ -1009,9 +1012,10 @@ func TestCheck(t *testing.T) {
 			d1x.Run(t, c, scenarios())
 			return
 		}
-		share := 0.25
+		// upper limit of part 1's share of the budget; part 2 gets whatever is left
+		share := 0.45
 		if c.Thorough() {
-			share = 0.3
+			share = 0.35
 		}
 		if os.Getenv("VERIF_SCENARIO") == "" {
 			runSequential(c, share)
